@@ -242,6 +242,8 @@ static RunPlan gen_converge(uint64_t seed, int tier)
 				c.set("reuse_vino", 1);
 				p.ops.push_back(c);
 			}
+			if (rng.chance(1, 8)) p.ops.push_back(Json::obj().set("k", "undelete").set("new_stamp", (int)rng.below(2)));
+			if (rng.chance(1, 5)) for (auto& o : gen_idiom(rng, p.cfg, r)) p.ops.push_back(o);
 			if (rng.chance(1, 6)) p.ops.push_back(Json::obj().set("k", "reinode").set("d", (int64_t)rng.below(p.cfg.disks.size())).set("f", (int64_t)rng.below(32)));
 			// swap two names
 			if (rng.chance(1, 6)) {
